@@ -13,6 +13,9 @@ CHECKS = {
 }
 CHECKS.update({
  # NEW-ENTRIES-HERE
+ "C10": (True, "model_checking", "explicit-state BFS over real ResourceBank/ReadBuf operation sequences with pool recycling as an explored choice (sync shim via build overlay), shadow-heap model; exhaustive retention policies over ReadFile",
+         "The library is rebuilt with its sync import replaced by a shim whose Pool.Get answer is chosen by the explorer, so recycling of banks is enumerated instead of left to the runtime. Bank level: BFS over operation sequences (depth 6/7) on the real banks with a shadow heap checked after every step (zeroed, disjoint, intact). File level: every retention/close policy of the callback over 4-record multi-block files of each codec, with pool answers explored to a deviation bound; retained shallow copies must stay equal to deep copies while their bank is open.",
+         "API misuse excluded; fill-level classes in the canonical state; shim pool is a superset of sync.Pool behaviour.", "DESIGN.md §4 C10"),
  "C20": (True, "model_checking", "explicit-state exploration of registration histories on the real global registries with a 'last registration wins' model; instrumented codecs; exhaustive positions",
          "Registration histories over {Register(f1), Register(f2), RegisterSchema(s1), RegisterSchema(s2)} are explored from the unregistered state (fresh generic named types) and from carried-over states up to depth 3 (4 thorough) for custom types of three kinds; after every operation the type is used at 11 positions and the schema shown, the builder consulted, the codec actually run for every occurrence (invocation counters and a wire marker), validity under the reference decoder and codec/file round trips are compared with the model. Controls: never-registered look-alikes and the library's own registrations.",
          "Registrations cannot be undone (state carried within a worker); custom builders accept string/long schemas only.", "DESIGN.md §4 C20"),
@@ -88,7 +91,7 @@ def main():
         "setup_cmd": "./setup.sh",
         "hooks": {
             "guard": "verif",
-            "enable": "no source hooks in /repo: instrumentation (sync shim, access hooks) is generated at check time from the current tree and injected with `go build -overlay` by run.sh; the harness itself is the module /verif/harness",
+            "enable": "no source hooks in /repo: for C10/C12 run.sh runs cmd/ovgen on the current tree (sync import -> zzvsync shim, generated Access hooks) and builds with `go build -tags ovl -overlay <generated overlay.json>`; the harness itself is the module /verif/harness",
             "baseline_off_cmd": BASELINE_OFF,
             "source_commits": [],
             "add_only": True,
